@@ -1,2 +1,537 @@
-//! w_migrate: world helpers (filled in by the properties that need it).
+//! w_migrate: puts each of the eighteen migratable contracts into a reachable mid-life
+//! state on cw-multi-test (minters through their factory, as the repo's test-suite does),
+//! snapshots raw storage and smart queries, overwrites the cw2 info and calls `migrate`.
 #![allow(dead_code, unused_imports)]
+use crate::chain::{self, App};
+use cosmwasm_std::{coins, Addr, Coin, Empty, Storage};
+use cw_multi_test::Executor;
+use serde::{Deserialize, Serialize};
+use serde_json::{json, Value};
+use std::collections::BTreeMap;
+
+#[derive(Clone, Copy, Debug, Serialize, Deserialize, PartialEq, Eq, PartialOrd, Ord)]
+pub enum Contract {
+    VendingMinter,
+    VendingMinterFeatured,
+    VendingMinterWlFlex,
+    VendingMinterWlFlexFeatured,
+    VendingMinterMerkleWl,
+    VendingMinterMerkleWlFeatured,
+    OpenEditionMinter,
+    OpenEditionMinterWlFlex,
+    OpenEditionMinterMerkleWl,
+    TokenMergeMinter,
+    BaseFactory,
+    VendingFactory,
+    OpenEditionFactory,
+    TokenMergeFactory,
+    Splits,
+    WhitelistMerkletree,
+    TieredWhitelistMerkletree,
+    Sg721Updatable,
+}
+pub const ALL: [Contract; 18] = [
+    Contract::VendingMinter,
+    Contract::VendingMinterFeatured,
+    Contract::VendingMinterWlFlex,
+    Contract::VendingMinterWlFlexFeatured,
+    Contract::VendingMinterMerkleWl,
+    Contract::VendingMinterMerkleWlFeatured,
+    Contract::OpenEditionMinter,
+    Contract::OpenEditionMinterWlFlex,
+    Contract::OpenEditionMinterMerkleWl,
+    Contract::TokenMergeMinter,
+    Contract::BaseFactory,
+    Contract::VendingFactory,
+    Contract::OpenEditionFactory,
+    Contract::TokenMergeFactory,
+    Contract::Splits,
+    Contract::WhitelistMerkletree,
+    Contract::TieredWhitelistMerkletree,
+    Contract::Sg721Updatable,
+];
+
+#[derive(Clone, Copy, Debug, PartialEq, Eq)]
+pub enum Kind {
+    Vending,
+    Simple,
+    Factory,
+    Updatable,
+}
+
+impl Contract {
+    pub fn coq(&self) -> String {
+        format!("{:?}", self)
+    }
+    pub fn kind(&self) -> Kind {
+        use Contract::*;
+        match self {
+            VendingMinter | VendingMinterFeatured | VendingMinterWlFlex | VendingMinterWlFlexFeatured
+            | VendingMinterMerkleWl | VendingMinterMerkleWlFeatured => Kind::Vending,
+            BaseFactory | VendingFactory | OpenEditionFactory | TokenMergeFactory => Kind::Factory,
+            Sg721Updatable => Kind::Updatable,
+            _ => Kind::Simple,
+        }
+    }
+    fn code(&self) -> Box<dyn cw_multi_test::Contract<Empty>> {
+        use Contract::*;
+        match self {
+            VendingMinter => chain::vending_minter(),
+            VendingMinterFeatured => chain::vending_minter_featured(),
+            VendingMinterWlFlex => chain::vending_minter_wl_flex(),
+            VendingMinterWlFlexFeatured => chain::vending_minter_wl_flex_featured(),
+            VendingMinterMerkleWl => chain::vending_minter_merkle_wl(),
+            VendingMinterMerkleWlFeatured => chain::vending_minter_merkle_wl_featured(),
+            OpenEditionMinter => chain::open_edition_minter(),
+            OpenEditionMinterWlFlex => chain::open_edition_minter_wl_flex(),
+            OpenEditionMinterMerkleWl => chain::open_edition_minter_merkle_wl(),
+            TokenMergeMinter => chain::token_merge_minter(),
+            BaseFactory => chain::base_factory(),
+            VendingFactory => chain::vending_factory(),
+            OpenEditionFactory => chain::open_edition_factory(),
+            TokenMergeFactory => chain::token_merge_factory(),
+            Splits => chain::splits(),
+            WhitelistMerkletree => chain::whitelist_merkletree(),
+            TieredWhitelistMerkletree => chain::tiered_whitelist_merkletree(),
+            Sg721Updatable => chain::sg721_updatable(),
+        }
+    }
+}
+
+pub const CREATOR: &str = "creator";
+pub const BUYER: &str = "buyer";
+pub const BUYER2: &str = "buyer2";
+pub const NATIVE: &str = "ustars";
+const DEV_ADDRESS: &str = "stars1abcd4kdla12mh86psg4y4h6hh05g2hmqoap350";
+const CREATION_FEE: u128 = 5_000_000_000;
+const MINT_PRICE: u128 = 100_000_000;
+
+fn coin_json(amount: u128, denom: &str) -> Value {
+    json!({"amount": amount.to_string(), "denom": denom})
+}
+
+pub struct Setup {
+    pub app: App,
+    /// the contract whose migrate entry point is exercised
+    pub addr: Addr,
+    /// its wasm-level admin
+    pub admin: String,
+    pub code_id: u64,
+    pub contract: Contract,
+}
+
+fn exec_ok(app: &mut App, sender: &str, to: &Addr, msg: &Value, funds: &[Coin]) -> Result<(), String> {
+    chain::exec(app, sender, to, msg, funds).map(|_| ()).map_err(|e| format!("{} -> {}: {}", sender, msg, e))
+}
+
+fn vending_factory_params(minter_code: u64, sg721_codes: &[u64]) -> Value {
+    json!({"params": {
+        "code_id": minter_code, "allowed_sg721_code_ids": sg721_codes, "frozen": false,
+        "creation_fee": coin_json(CREATION_FEE, NATIVE), "min_mint_price": coin_json(50_000_000, NATIVE),
+        "mint_fee_bps": 1000, "max_trading_offset_secs": 604800,
+        "extension": {"max_token_limit": 10000, "max_per_address_limit": 50,
+            "airdrop_mint_price": coin_json(0, NATIVE), "airdrop_mint_fee_bps": 10000,
+            "shuffle_fee": coin_json(500_000_000, NATIVE)}}})
+}
+fn oe_factory_params(minter_code: u64, sg721_codes: &[u64]) -> Value {
+    json!({"params": {
+        "code_id": minter_code, "allowed_sg721_code_ids": sg721_codes, "frozen": false,
+        "creation_fee": coin_json(CREATION_FEE, NATIVE), "min_mint_price": coin_json(MINT_PRICE, NATIVE),
+        "mint_fee_bps": 1000, "max_trading_offset_secs": 604800,
+        "extension": {"max_token_limit": 10000, "max_per_address_limit": 10,
+            "airdrop_mint_fee_bps": 100, "airdrop_mint_price": coin_json(MINT_PRICE, NATIVE),
+            "dev_fee_address": DEV_ADDRESS}}})
+}
+fn base_factory_params(minter_code: u64, sg721_codes: &[u64]) -> Value {
+    json!({"params": {
+        "code_id": minter_code, "allowed_sg721_code_ids": sg721_codes, "frozen": false,
+        "creation_fee": coin_json(CREATION_FEE, NATIVE), "min_mint_price": coin_json(5_000_000, NATIVE),
+        "mint_fee_bps": 1000, "max_trading_offset_secs": 604800, "extension": null}})
+}
+fn tm_factory_params(minter_code: u64, sg721_codes: &[u64]) -> Value {
+    json!({"params": {
+        "code_id": minter_code, "allowed_sg721_code_ids": sg721_codes, "frozen": false,
+        "creation_fee": coin_json(CREATION_FEE, NATIVE), "max_trading_offset_secs": 604800,
+        "max_token_limit": 10000, "max_per_address_limit": 50,
+        "airdrop_mint_price": coin_json(0, NATIVE), "airdrop_mint_fee_bps": 10000,
+        "shuffle_fee": coin_json(500_000_000, NATIVE)}})
+}
+fn collection_params(sg721_code: u64) -> Value {
+    json!({"code_id": sg721_code, "name": "Collection Name", "symbol": "COL",
+        "info": {"creator": CREATOR, "description": "Stargaze Monkeys",
+            "image": "https://example.com/image.png", "external_link": "https://example.com/external.html",
+            "explicit_content": null, "start_trading_time": null,
+            "royalty_info": {"payment_address": CREATOR, "share": "0.1"}}})
+}
+
+fn fund(app: &mut App) {
+    for who in [CREATOR, BUYER, BUYER2] {
+        chain::mint_coins(app, who, 1_000_000_000_000, NATIVE);
+    }
+}
+
+/// `stage` selects how far into its life the contract is taken (0 = just created)
+pub fn setup(c: Contract, stage: u8) -> Result<Setup, String> {
+    use Contract::*;
+    let mut app = chain::new_app();
+    fund(&mut app);
+    let now = chain::now(&app);
+    let start = now + 10_000_000_000;
+    match c {
+        VendingMinter | VendingMinterFeatured | VendingMinterWlFlex | VendingMinterWlFlexFeatured
+        | VendingMinterMerkleWl | VendingMinterMerkleWlFeatured | Sg721Updatable => {
+            let minter_kind = if c == Sg721Updatable { VendingMinter } else { c };
+            let minter_code = app.store_code(minter_kind.code());
+            let factory_code = app.store_code(chain::vending_factory());
+            let sg721_code = if c == Sg721Updatable { app.store_code(chain::sg721_updatable()) } else { app.store_code(chain::sg721_base()) };
+            let factory = app
+                .instantiate_contract(factory_code, Addr::unchecked(CREATOR), &vending_factory_params(minter_code, &[sg721_code]), &[], "factory", None)
+                .map_err(|e| format!("factory: {:#}", e))?;
+            let create = json!({"create_minter": {
+                "init_msg": {"base_token_uri": "ipfs://aldkfjads", "payment_address": null, "start_time": start.to_string(),
+                    "num_tokens": 20, "mint_price": coin_json(MINT_PRICE, NATIVE), "per_address_limit": 3, "whitelist": null},
+                "collection_params": collection_params(sg721_code)}});
+            exec_ok(&mut app, CREATOR, &factory, &create, &coins(CREATION_FEE, NATIVE))?;
+            let minter = Addr::unchecked("contract1");
+            let collection = Addr::unchecked("contract2");
+            if stage >= 1 {
+                chain::set_time(&mut app, start + 1_000_000_000);
+                for _ in 0..3 {
+                    exec_ok(&mut app, BUYER, &minter, &json!({"mint": {}}), &coins(MINT_PRICE, NATIVE))?;
+                }
+                exec_ok(&mut app, BUYER2, &minter, &json!({"mint": {}}), &coins(MINT_PRICE, NATIVE))?;
+            }
+            if stage >= 2 {
+                exec_ok(&mut app, CREATOR, &minter, &json!({"mint_to": {"recipient": BUYER2}}), &[])?;
+                exec_ok(&mut app, BUYER, &minter, &json!({"shuffle": {}}), &coins(500_000_000, NATIVE))?;
+                exec_ok(&mut app, CREATOR, &minter, &json!({"update_per_address_limit": {"per_address_limit": 2}}), &[])?;
+                chain::set_time(&mut app, start + 3_600_000_000_000);
+                exec_ok(&mut app, BUYER2, &minter, &json!({"mint": {}}), &coins(MINT_PRICE, NATIVE))?;
+                if c == Sg721Updatable {
+                    let tok = first_token(&app, &collection, BUYER)?;
+                    exec_ok(&mut app, BUYER, &collection, &json!({"transfer_nft": {"recipient": BUYER2, "token_id": tok}}), &[])?;
+                }
+            }
+            let addr = if c == Sg721Updatable { collection } else { minter };
+            finish(app, addr, c)
+        }
+        OpenEditionMinter | OpenEditionMinterWlFlex | OpenEditionMinterMerkleWl => {
+            let minter_code = app.store_code(c.code());
+            let factory_code = app.store_code(chain::open_edition_factory());
+            let sg721_code = app.store_code(chain::sg721_base());
+            let factory = app
+                .instantiate_contract(factory_code, Addr::unchecked(CREATOR), &oe_factory_params(minter_code, &[sg721_code]), &[], "factory", None)
+                .map_err(|e| format!("factory: {:#}", e))?;
+            let create = json!({"create_minter": {
+                "init_msg": {"nft_data": {"nft_data_type": "off_chain_metadata", "extension": null, "token_uri": "ipfs://1234"},
+                    "start_time": start.to_string(), "end_time": (start + 86_400_000_000_000u64).to_string(),
+                    "mint_price": coin_json(MINT_PRICE, NATIVE), "per_address_limit": 5, "num_tokens": null,
+                    "payment_address": null, "whitelist": null},
+                "collection_params": collection_params(sg721_code)}});
+            exec_ok(&mut app, CREATOR, &factory, &create, &coins(CREATION_FEE, NATIVE))?;
+            let minter = Addr::unchecked("contract1");
+            if stage >= 1 {
+                chain::set_time(&mut app, start + 1_000_000_000);
+                for _ in 0..2 {
+                    exec_ok(&mut app, BUYER, &minter, &json!({"mint": {}}), &coins(MINT_PRICE, NATIVE))?;
+                }
+                exec_ok(&mut app, BUYER2, &minter, &json!({"mint": {}}), &coins(MINT_PRICE, NATIVE))?;
+            }
+            if stage >= 2 {
+                exec_ok(&mut app, CREATOR, &minter, &json!({"update_per_address_limit": {"per_address_limit": 4}}), &[])?;
+                chain::set_time(&mut app, start + 3_600_000_000_000);
+                exec_ok(&mut app, BUYER2, &minter, &json!({"mint": {}}), &coins(MINT_PRICE, NATIVE))?;
+            }
+            finish(app, minter, c)
+        }
+        TokenMergeMinter => {
+            let minter_code = app.store_code(c.code());
+            let factory_code = app.store_code(chain::token_merge_factory());
+            let sg721_code = app.store_code(chain::sg721_base());
+            let factory = app
+                .instantiate_contract(factory_code, Addr::unchecked(CREATOR), &tm_factory_params(minter_code, &[sg721_code]), &[], "factory", None)
+                .map_err(|e| format!("factory: {:#}", e))?;
+            let create = json!({"create_minter": {
+                "init_msg": {"base_token_uri": "ipfs://aldkfjads", "start_time": start.to_string(), "num_tokens": 20,
+                    "mint_tokens": [{"collection": "contract2", "amount": 1}], "per_address_limit": 3},
+                "collection_params": collection_params(sg721_code)}});
+            exec_ok(&mut app, CREATOR, &factory, &create, &coins(CREATION_FEE, NATIVE))?;
+            let minter = Addr::unchecked("contract1");
+            if stage >= 1 {
+                chain::set_time(&mut app, start + 1_000_000_000);
+                // creator airdrops (no tokens need to be burnt for MintTo)
+                exec_ok(&mut app, CREATOR, &minter, &json!({"mint_to": {"recipient": BUYER}}), &[])?;
+            }
+            if stage >= 2 {
+                exec_ok(&mut app, CREATOR, &minter, &json!({"mint_to": {"recipient": BUYER2}}), &[])?;
+                exec_ok(&mut app, CREATOR, &minter, &json!({"update_per_address_limit": {"per_address_limit": 2}}), &[])?;
+            }
+            finish(app, minter, c)
+        }
+        BaseFactory | VendingFactory | OpenEditionFactory | TokenMergeFactory => {
+            let code = app.store_code(c.code());
+            let params = match c {
+                BaseFactory => base_factory_params(7, &[1, 3, 5]),
+                VendingFactory => vending_factory_params(7, &[1, 3, 5]),
+                OpenEditionFactory => oe_factory_params(7, &[1, 3, 5]),
+                _ => tm_factory_params(7, &[1, 3, 5]),
+            };
+            let addr = app
+                .instantiate_contract(code, Addr::unchecked(CREATOR), &params, &[], "factory", Some(CREATOR.to_string()))
+                .map_err(|e| format!("factory: {:#}", e))?;
+            if stage >= 1 {
+                let upd = if c == TokenMergeFactory {
+                    json!({"update_params": {"code_id": 9, "add_sg721_code_ids": [11], "rm_sg721_code_ids": [3], "frozen": null,
+                        "creation_fee": null, "max_trading_offset_secs": 1000,
+                        "extension": {"max_token_limit": 5000, "max_per_address_limit": null, "airdrop_mint_price": null, "airdrop_mint_fee_bps": null, "shuffle_fee": null}}})
+                } else {
+                    let ext = match c {
+                        BaseFactory => Value::Null,
+                        VendingFactory => json!({"max_token_limit": 5000, "max_per_address_limit": null, "airdrop_mint_price": null, "airdrop_mint_fee_bps": null, "shuffle_fee": null}),
+                        _ => json!({"max_token_limit": 5000, "max_per_address_limit": null, "min_mint_price": null, "airdrop_mint_price": null, "airdrop_mint_fee_bps": null, "dev_fee_address": null}),
+                    };
+                    json!({"update_params": {"code_id": 9, "add_sg721_code_ids": [11], "rm_sg721_code_ids": [3], "frozen": null,
+                        "creation_fee": null, "min_mint_price": null, "mint_fee_bps": 500, "max_trading_offset_secs": 1000, "extension": ext}})
+                };
+                chain::sudo(&mut app, &addr, &upd).map_err(|e| format!("sudo {}: {}", upd, e))?;
+            }
+            if stage >= 2 {
+                chain::set_time(&mut app, now + 86_400_000_000_000);
+            }
+            finish(app, addr, c)
+        }
+        Splits => {
+            let gcode = app.store_code(chain::cw4_group());
+            let scode = app.store_code(chain::splits());
+            let gmsg = json!({"admin": "gadmin", "members": [{"addr": "m0001", "weight": 50}, {"addr": "m0002", "weight": 30}, {"addr": "m0003", "weight": 0}]});
+            let group = app.instantiate_contract(gcode, Addr::unchecked(CREATOR), &gmsg, &[], "group", None).map_err(|e| format!("group: {:#}", e))?;
+            let smsg = json!({"admin": CREATOR, "group": {"cw4_address": group.to_string()}});
+            let addr = app
+                .instantiate_contract(scode, Addr::unchecked(CREATOR), &smsg, &[], "splits", Some(CREATOR.to_string()))
+                .map_err(|e| format!("splits: {:#}", e))?;
+            if stage >= 1 {
+                chain::mint_coins(&mut app, addr.as_str(), 1234, NATIVE);
+                exec_ok(&mut app, CREATOR, &addr, &json!({"distribute": {"denom_list": null}}), &[])?;
+            }
+            if stage >= 2 {
+                exec_ok(&mut app, CREATOR, &addr, &json!({"update_admin": {"admin": BUYER}}), &[])?;
+                chain::mint_coins(&mut app, addr.as_str(), 77, NATIVE);
+            }
+            finish(app, addr, c)
+        }
+        WhitelistMerkletree => {
+            let code = app.store_code(c.code());
+            let msg = json!({"merkle_root": "5ab281bca33c9819e0daa0708d20ddd8a1a5a2cc4e6e3a4e7a96b5a8e1b4c2d7", "merkle_tree_uri": "ipfs://tree",
+                "start_time": start.to_string(), "end_time": (start + 86_400_000_000_000u64).to_string(),
+                "mint_price": coin_json(MINT_PRICE, NATIVE), "per_address_limit": 3, "admins": [CREATOR], "admins_mutable": true});
+            let addr = app
+                .instantiate_contract(code, Addr::unchecked(CREATOR), &msg, &coins(1_000_000_000, NATIVE), "wl", Some(CREATOR.to_string()))
+                .map_err(|e| format!("whitelist-merkletree: {:#}", e))?;
+            if stage >= 1 {
+                exec_ok(&mut app, CREATOR, &addr, &json!({"update_admins": {"admins": [CREATOR, BUYER]}}), &[])?;
+            }
+            if stage >= 2 {
+                exec_ok(&mut app, BUYER, &addr, &json!({"update_end_time": (start + 80_000_000_000_000u64).to_string()}), &[])?;
+                chain::set_time(&mut app, start + 1_000_000_000);
+            }
+            finish(app, addr, c)
+        }
+        TieredWhitelistMerkletree => {
+            let code = app.store_code(c.code());
+            let stage_json = |name: &str, s: u64, e: u64| json!({"name": name, "start_time": s.to_string(), "end_time": e.to_string(),
+                "mint_price": coin_json(MINT_PRICE, NATIVE), "per_address_limit": 3, "mint_count_limit": null});
+            let msg = json!({"stages": [stage_json("one", start, start + 1_000_000_000_000), stage_json("two", start + 2_000_000_000_000, start + 3_000_000_000_000)],
+                "merkle_roots": ["5ab281bca33c9819e0daa0708d20ddd8", "6ab281bca33c9819e0daa0708d20ddd8"],
+                "merkle_tree_uris": ["ipfs://tree1", "ipfs://tree2"], "admins": [CREATOR], "admins_mutable": true});
+            let addr = app
+                .instantiate_contract(code, Addr::unchecked(CREATOR), &msg, &coins(1_000_000_000, NATIVE), "twl", Some(CREATOR.to_string()))
+                .map_err(|e| format!("tiered-whitelist-merkletree: {:#}", e))?;
+            if stage >= 1 {
+                exec_ok(&mut app, CREATOR, &addr, &json!({"update_admins": {"admins": [CREATOR, BUYER]}}), &[])?;
+            }
+            if stage >= 2 {
+                chain::set_time(&mut app, start + 1_000_000_000);
+            }
+            finish(app, addr, c)
+        }
+    }
+}
+
+fn first_token(app: &App, collection: &Addr, owner: &str) -> Result<String, String> {
+    let r: Value = app
+        .wrap()
+        .query_wasm_smart(collection, &json!({"tokens": {"owner": owner, "start_after": null, "limit": null}}))
+        .map_err(|e| e.to_string())?;
+    r["tokens"][0].as_str().map(|s| s.to_string()).ok_or_else(|| "no token".to_string())
+}
+
+fn finish(app: App, addr: Addr, c: Contract) -> Result<Setup, String> {
+    let data = app.contract_data(&addr).map_err(|e| format!("no such contract {}: {:#}", addr, e))?;
+    let admin = data.admin.clone().map(|a| a.to_string()).ok_or_else(|| format!("{} has no wasm admin", addr))?;
+    Ok(Setup { app, addr, admin, code_id: data.code_id, contract: c })
+}
+
+/// every smart query of the contract that takes no state-specific argument, plus a few with
+/// the addresses/ids the setups use; (query, depends on a slot the migration may write)
+pub fn queries(c: Contract) -> Vec<(Value, bool)> {
+    use Contract::*;
+    let plain = |names: &[&str]| names.iter().map(|n| (json!({ *n: {} }), false)).collect::<Vec<_>>();
+    match c.kind() {
+        Kind::Vending => {
+            let mut v = plain(&["config", "mintable_num_tokens", "start_time", "mint_price", "status"]);
+            for a in [BUYER, BUYER2, CREATOR] {
+                v.push((json!({"mint_count": {"address": a}}), false));
+            }
+            v
+        }
+        Kind::Factory => vec![
+            (json!({"params": {}}), true),
+            (json!({"allowed_collection_code_ids": {}}), true),
+            (json!({"allowed_collection_code_id": 3}), true),
+            (json!({"allowed_collection_code_id": 11}), true),
+        ],
+        Kind::Updatable => {
+            let mut v = plain(&["contract_info", "num_tokens", "collection_info"]);
+            v.push((json!({"all_tokens": {"start_after": null, "limit": 30}}), false));
+            for a in [BUYER, BUYER2] {
+                v.push((json!({"tokens": {"owner": a, "start_after": null, "limit": 30}}), false));
+            }
+            for t in 1..=20u32 {
+                v.push((json!({"owner_of": {"token_id": t.to_string(), "include_expired": null}}), false));
+                v.push((json!({"nft_info": {"token_id": t.to_string()}}), false));
+            }
+            v.push((json!({"minter": {}}), true));
+            v.push((json!({"ownership": {}}), true));
+            v.push((json!({"enable_updatable": {}}), true));
+            v.push((json!({"freeze_token_metadata": {}}), true));
+            v.push((json!({"enable_updatable_fee": {}}), false));
+            v
+        }
+        Kind::Simple => match c {
+            OpenEditionMinter | OpenEditionMinterWlFlex | OpenEditionMinterMerkleWl => {
+                let mut v = plain(&["config", "start_time", "end_time", "mint_price", "total_mint_count", "status", "mintable_num_tokens"]);
+                for a in [BUYER, BUYER2, CREATOR] {
+                    v.push((json!({"mint_count": {"address": a}}), false));
+                }
+                v
+            }
+            TokenMergeMinter => {
+                let mut v = plain(&["config", "mintable_num_tokens", "start_time", "mint_tokens", "status"]);
+                for a in [BUYER, BUYER2, CREATOR] {
+                    v.push((json!({"mint_count": {"address": a}}), false));
+                    v.push((json!({"deposited_tokens": {"address": a}}), false));
+                }
+                v
+            }
+            Splits => {
+                let mut v = plain(&["admin", "group"]);
+                v.push((json!({"list_members": {"start_after": null, "limit": 30}}), false));
+                for a in ["m0001", "m0003", CREATOR] {
+                    v.push((json!({"member": {"address": a}}), false));
+                }
+                v
+            }
+            WhitelistMerkletree => {
+                let mut v = plain(&["has_started", "has_ended", "is_active", "config", "admin_list", "merkle_root", "merkle_tree_u_r_i"]);
+                v.push((json!({"can_execute": {"sender": BUYER, "msg": {"bank": {"send": {"to_address": BUYER, "amount": []}}}}}), false));
+                v
+            }
+            _ => {
+                let mut v = plain(&["has_started", "has_ended", "is_active", "active_stage", "active_stage_id", "config", "stages", "admin_list", "merkle_roots", "merkle_tree_u_r_is"]);
+                v.push((json!({"stage": {"stage_id": 0}}), false));
+                v.push((json!({"stage": {"stage_id": 1}}), false));
+                v
+            }
+        },
+    }
+}
+
+pub type Raw = BTreeMap<Vec<u8>, Vec<u8>>;
+
+pub struct Snap {
+    pub raw: Raw,
+    pub answers: Vec<Result<String, ()>>,
+}
+
+pub fn raw_storage(app: &App, addr: &Addr) -> Raw {
+    let st = app.contract_storage(addr);
+    st.range(None, None, cosmwasm_std::Order::Ascending).collect()
+}
+
+pub fn snapshot(app: &App, addr: &Addr, qs: &[(Value, bool)]) -> Snap {
+    let answers = qs
+        .iter()
+        .map(|(q, _)| match app.wrap().query_wasm_smart::<Value>(addr, q) {
+            Ok(v) => Ok(v.to_string()),
+            Err(_) => Err(()),
+        })
+        .collect();
+    Snap { raw: raw_storage(app, addr), answers }
+}
+
+/// put the contract's raw storage back to a snapshot
+pub fn restore(app: &mut App, addr: &Addr, raw: &Raw) {
+    let current = raw_storage(app, addr);
+    let mut st = app.contract_storage_mut(addr);
+    for k in current.keys() {
+        if !raw.contains_key(k) {
+            st.remove(k);
+        }
+    }
+    for (k, v) in raw {
+        if current.get(k) != Some(v) {
+            st.set(k, v);
+        }
+    }
+}
+
+pub fn set_cw2(app: &mut App, addr: &Addr, name: &str, version: &str) {
+    let mut st = app.contract_storage_mut(addr);
+    cw2::set_contract_version(&mut *st, name, version).unwrap();
+}
+pub fn get_cw2(app: &App, addr: &Addr) -> (String, String) {
+    let st = app.contract_storage(addr);
+    let v = cw2::get_contract_version(&*st).unwrap();
+    (v.contract, v.version)
+}
+
+/// the raw keys a migration is allowed to write (besides cw2's)
+pub const SLOT_KEYS: [&str; 8] = [
+    "contract_info",
+    "last_discount_time",
+    "frozen_token_metadata",
+    "enable_updatable",
+    "royalty_updated_at",
+    "minter",
+    "ownership",
+    "sudo-params",
+];
+
+pub fn slot_raw<'a>(raw: &'a Raw, key: &str) -> Option<&'a Vec<u8>> {
+    raw.get(key.as_bytes())
+}
+pub fn slot_timestamp(raw: &Raw, key: &str) -> Option<u64> {
+    slot_raw(raw, key).and_then(|v| serde_json::from_slice::<String>(v).ok()).and_then(|s| s.parse().ok())
+}
+pub fn slot_bool(raw: &Raw, key: &str) -> Option<bool> {
+    slot_raw(raw, key).and_then(|v| serde_json::from_slice::<bool>(v).ok())
+}
+pub fn slot_addr(raw: &Raw, key: &str) -> Option<String> {
+    slot_raw(raw, key).and_then(|v| serde_json::from_slice::<String>(v).ok())
+}
+pub fn slot_owner(raw: &Raw) -> Option<String> {
+    slot_raw(raw, "ownership")
+        .and_then(|v| serde_json::from_slice::<Value>(v).ok())
+        .and_then(|v| v["owner"].as_str().map(|s| s.to_string()))
+}
+
+/// migrate with the same code id, catching panics
+pub fn migrate(s: &mut Setup, msg: &Value) -> Result<(), String> {
+    let (admin, addr, code) = (Addr::unchecked(s.admin.clone()), s.addr.clone(), s.code_id);
+    let app = &mut s.app;
+    match crate::util::catch(|| app.migrate_contract(admin, addr, msg, code)) {
+        Ok(Ok(_)) => Ok(()),
+        Ok(Err(e)) => Err(format!("{:#}", e)),
+        Err(p) => Err(p),
+    }
+}
